@@ -123,6 +123,6 @@ def execute(cases_, tier, seed):
     res.bound = "tier=%s: string-ish leaves x {def, alias%s}; untagged string enums: all ordered pairs%s of the alternative menu" % (
         tier, "" if tier == "quick" else ", allOf, root", "" if tier == "quick" else " and triples")
     res.assumptions = ["only conversions the emitted code implements (syn scan of impl headers) are probed"]
-    if len(cases_) > 20 and (n_probe < 500 or with_routes < 20):
+    if not res.violations and (len(cases_) > 20 and (n_probe < 500 or with_routes < 20)):   # a subject that breaks everything is reported through its violations, not as vacuity
         raise MachineryError("vacuity guard: probes=%d cases_with_conversions=%d" % (n_probe, with_routes))
     return res
